@@ -1,5 +1,6 @@
 """C10 - move iterator honours its size and filtering contracts."""
 from analysis.runner import rule
+from analysis.effects import upd_entries, acnorm, subterms
 from analysis.facts import AnchorError
 from analysis import terms as T, k2
 from analysis.cfg import cfg_of
@@ -302,6 +303,153 @@ def r8(ctx):
                 eff_ok = False
                 break
         ctx.ob("remove_move effect", pred_ok and eff_ok, f"remove_move does not subtract chess_move.dest from the entry whose src equals chess_move.source (predicate ok={pred_ok}, effect ok={eff_ok})", site=site)
+
+
+@rule("C10.R10", "remove(mask) subtracts the mask from every entry of the list (entries before the cursor come back after set_mask)")
+def r10(ctx):
+    P = ctx.P
+    key = MG + "::remove"
+    body = P.body(key)
+    ctx.used_body(key)
+    site = body.get("def_span")
+    c = cfg_of(body)
+    loops = c.loops()
+    # the iteration source: the whole list, i.e. an iterator made from `&mut self.moves` with no range indexing in between
+    srcs = []
+    sliced = [t["f"].get("fn_args", "") for _, t in P.calls(key) if "core::ops::index::Index" in t["f"].get("fn_args", "") and "Range" in t["f"].get("fn_args", "")]
+    for bi, t in P.calls(key):
+        fa = t["f"].get("fn_args", "")
+        if fa.endswith("IntoIterator>::into_iter") or "::iter_mut" in fa:
+            d = k2.describe_operand(P, body, t["a"][0])
+            x = d
+            while isinstance(x, tuple) and x and x[0] in ("ref", "proj"):
+                x = x[1]
+            if x[0] == "call" and x[1].endswith("DerefMut>::deref_mut"):
+                x = x[2][0]
+                while isinstance(x, tuple) and x and x[0] in ("ref", "proj"):
+                    x = x[1]
+            srcs.append(x)
+    whole = srcs == [("place", "self", ("d", "moves"))] and not sliced and len(loops) == 1
+    ctx.ob("remove range", whole, f"remove iterates over {srcs} (range indexing: {sliced[:1]}); it must cover the whole list: entries before the cursor are handed out again after set_mask rewinds",
+           site=site, sample={"source": str(srcs)})
+    # per-entry effect on every generic iteration: entry.moves := entry.moves & !mask (whatever operator spells it)
+    eng = T.Engine(P)
+    rets, lps, _ = eng.paths(key)
+    ok, n_some = bool(lps), 0
+    mask_w = ("field", ("param", 1, "a1"), "0")
+    for lf in lps:
+        item = [v for t_, v in lf.cond if t_[0] == "discr" and isinstance(v, str)]
+        if "Some" not in item:
+            continue
+        n_some += 1
+        writes = []
+        for k_, v_ in lf.ext.items():
+            base, ents = upd_entries(eng.freeze(lf.state, v_))
+            if not any(s_[0] == "app" and "Iterator>::next" in s_[1] for s_ in subterms(k_)):
+                continue                    # only the entry handed out by the list iterator in this generic iteration
+            for pth, val in ents:
+                names = [e[2] for e in pth if e[0] == "f"]
+                if val[0] in ("loopvar", "mutated"):
+                    continue
+                if names and names[-1] in ("moves",) or names[-2:] == ["moves", "0"]:
+                    old = T.get_path(base, pth)
+                    w = val[3][0] if val[0] == "adt" else val
+                    o = ("field", old, "0") if val[0] == "adt" else old
+                    writes.append(acnorm(w) == acnorm(("bin", "BitAnd", o, ("un", "Not", mask_w))))
+        ok &= writes == [True]
+    ctx.ob("remove effect", ok and n_some >= 1, "remove does not turn each visited entry's `moves` into `moves & !mask`", site=site)
+
+
+@rule("C10.R9", "next(): yields the lowest masked destination of the cursor entry, removes exactly that destination, advances the cursor iff no masked destination is left")
+def r9(ctx):
+    """The extracted summary of next() is evaluated on sample (entry, mask) words; no code of the repository runs."""
+    P = ctx.P
+    ctx.used_body(NEXT)
+    site = P.body(NEXT).get("def_span")
+    eng = T.Engine(P, opaque={"chess_bitboard::pos::Pos::from_u8"})
+    lv = eng.tabulate(NEXT)
+    M = ("field", ("field", slf, "mask"), "0")
+    zero = T.I(0, "u64")
+    some = [lf for lf in lv if lf.ret[0] == "adt" and lf.ret[2] == "Some"]
+    ctx.floor("yielding paths of next()", len(some), 3)
+    words = [0x1, 0x8000000000000000, 0x00FF00000000FF00, 0x0000001008000000, 0xFFFFFFFFFFFFFFFF, 0x8100000000000081, 0x0000000000000F0F, 0x4000000000000002, 0x00000000FFFF0000, 0x0102040810204080]
+    POS = "chess_bitboard::pos::Pos"
+    pos_by_discr = {d: nme for nme, d in P.enum_variants(POS)}
+
+    def apps(name, args):
+        # Pos::from_u8(k) is the k-th square (its table is decided by C19.R1); kept opaque above only to avoid a 64-way path split
+        if name.endswith("Pos::from_u8") and len(args) == 1 and T.is_const(args[0]) and args[0][1] in pos_by_discr:
+            return ("adt", "core::option::Option", "Some", (("adt", POS, pos_by_discr[args[0][1]], ()),))
+        return None
+    bad, n = [], 0
+    kinds = set()
+    for li, lf in enumerate(some):
+        E = None
+        for t_, v in lf.cond:
+            if t_[0] == "bin" and t_[1] == "Eq" and zero in t_[2:] and v == 0:
+                x = t_[2] if t_[3] == zero else t_[3]
+                if x[0] == "bin" and x[1] == "BitAnd" and M in x[2:]:
+                    E = x[3] if x[2] == M else x[2]
+                    break
+        if E is None:
+            raise AnchorError("next(): no `(entry.moves & self.mask) != 0` test on a yielding path")
+        promo = [v for t_, v in lf.cond if t_[0] == "field" and t_[2] == "promotion"]
+        exhausted = [v for t_, v in lf.cond if t_[0] == "bin" and t_[1] == "Eq" and any(s_[0] == "app" and "ExactSizeIterator>::len" in s_[1] for s_ in subterms(t_))]
+        consume = (promo == [0]) or (promo == [1] and exhausted == [1])
+        kinds.add(("promotion" if promo == [1] else "plain", "last piece" if exhausted == [1] else ("more pieces" if exhausted == [0] else "-")))
+        N, idx_written = None, False
+        for k_, v_ in lf.ext.items():
+            base, ents = upd_entries(eng.freeze(lf.state, v_))
+            for pth, val in ents:
+                names = [e[2] for e in pth if e[0] == "f"]
+                if k_ == ("param", 0, "self") and names == ["index"]:
+                    idx_written = acnorm(val) == acnorm(("bin", "Add", ("field", slf, "index"), T.I(1, "usize")))
+                    if not idx_written:
+                        bad.append((f"path{li}:index", f"the cursor becomes {T.show(val)[:80]}"))
+                if k_ != ("param", 0, "self") and names == ["moves"] and any(e[0] == "i" for e in pth):
+                    N = val[3][0] if val[0] == "adt" else val
+        fu = [s_ for s_ in subterms(lf.ret) if s_[0] == "app" and s_[1].endswith("Pos::from_u8")]
+        if len(fu) != 1:
+            raise AnchorError("next(): the yielded destination is not Pos::from_u8(..) of a bit index")
+        for e_ in words:
+            for m_ in words:
+                if not (e_ & m_):
+                    continue
+                env = {E: T.I(e_, "u64"), M: T.I(m_, "u64"), "__apps__": apps}
+                # does this sample select this path? (conditions over the entry and the mask only)
+                sel = True
+                for c in lf.cond:
+                    if c[0][0] == "assert" or not any(s_ in (E, M) for s_ in subterms(c[0])):
+                        continue
+                    if c[0][0] == "field" or any(s_[0] == "app" and "ExactSizeIterator" in s_[1] for s_ in subterms(c[0])):
+                        continue
+                    h = T.cond_holds(eng, c, env)
+                    if h is None:
+                        raise AnchorError(f"next(): cannot evaluate {T.show(c[0])[:80]} on concrete words")
+                    sel &= h
+                if not sel:
+                    continue
+                n += 1
+                low = (e_ & m_) & -(e_ & m_)
+                d = T.concretize(eng, fu[0][2][0], env)
+                if not T.is_const(d) or (1 << d[1]) != low:
+                    bad.append((f"path{li}:dest[{e_:#x},{m_:#x}]", f"yields square index {T.show(d)[:40]}, the lowest masked destination is bit {low.bit_length() - 1}"))
+                    continue
+                if consume:
+                    nv = T.concretize(eng, N, env) if N is not None else None
+                    want = e_ & ~low
+                    if nv is None or not T.is_const(nv) or nv[1] != want:
+                        bad.append((f"path{li}:entry[{e_:#x},{m_:#x}]", f"entry {e_:#x} under mask {m_:#x}: after yielding bit {low.bit_length() - 1} the entry is "
+                                    f"{hex(nv[1]) if nv is not None and T.is_const(nv) else 'unchanged/unknown'}, expected {want:#x} (only the yielded destination removed; destinations outside the mask must survive for a later set_mask)"))
+                        continue
+                    if idx_written != ((want & m_) == 0):
+                        bad.append((f"path{li}:cursor[{e_:#x},{m_:#x}]", f"cursor {'advances' if idx_written else 'stays'} although masked destinations {'remain' if want & m_ else 'are exhausted'}"))
+                else:
+                    if N is not None or idx_written:
+                        bad.append((f"path{li}:early[{e_:#x},{m_:#x}]", "the entry or the cursor changes before the last promotion piece of a destination was yielded"))
+    ctx.floor("sample evaluations of next()", n, 100)
+    ctx.ob("next() path kinds", kinds >= {("plain", "-"), ("promotion", "last piece"), ("promotion", "more pieces")}, f"next() has path kinds {sorted(kinds)}", site=site, sample=sorted(kinds))
+    ctx.bulk("next() step semantics", n, bad[:20], "next() does not consume exactly the yielded destination", sample={"evaluations": n})
 
 
 @rule("C10.W", "type-level: compile-fail witnesses with compiling twins (K6; thorough tier)")
